@@ -33,10 +33,10 @@ BUDGET = {"quick": 240, "thorough": 2400}
 
 
 def cases(tier, seed):
-    n = 96 if tier == "quick" else 2500
+    n = 96 if tier == "quick" else 20000
     out = [{"sub": "circ", "i": i} for i in range(n)] + [{"sub": "malformed"}]
     # directed: every controllable gate name with 1 and 2 controls, noise keyed by that name, both channel kinds
-    out += [{"sub": "model_history", "i": i} for i in range(6 if tier == "quick" else 100)]
+    out += [{"sub": "model_history", "i": i} for i in range(6 if tier == "quick" else 1000)]
     for name in gen.CTRL_FIXED + gen.CTRL_ROT + ["CSWAP"]:
         for nc in (1, 2):
             out.append({"sub": "directed", "name": name, "nc": nc})
